@@ -4,8 +4,59 @@ PathResult.observe   what the symbolic run says the implementation produces (ter
 PathResult.spec      what the property's oracle prescribes (same keys where both apply)
 inputs (set by run)  name -> term / proxy; concretised with the model into the request for the unpatched worker
 """
-from . import obs
-from .engine import PathResult
+import struct
+
+import z3
+
+from . import bv, obs
+from .engine import Ctx, PathResult
+
+
+def refine_model(ctx, model, tries=3):
+    """Make the uninterpreted unpack() functions agree with the real struct.unpack on the bytes the model chose
+    (DESIGN.md section 3, 'Uninterpreted results').  Returns a model or None (path explored but not validated)."""
+    calls = ctx.notes.get("unpack_calls", [])
+    if not calls:
+        return model
+    for _ in range(tries):
+        facts = []
+        ok = True
+        for fmt, word in calls:
+            n = word.size() // 8
+            val = model.eval(word, model_completion=True).as_long()
+            real = struct.unpack(fmt, val.to_bytes(n, "big"))[0]
+            if real != real or real in (float("inf"), float("-inf")):
+                ok = False
+                break
+            facts.append(word == val)
+            facts.append(bv.unpack_fn(fmt, n)(z3.BitVecVal(val, 8 * n)) == bv.real_of(real))
+        if not ok:
+            # ask for different bytes for the offending call
+            r = ctx.check(word != val)
+            if r != z3.sat:
+                return None
+            model = ctx.s.model()
+            continue
+        r = ctx.check(*facts)
+        if r == z3.sat:
+            return ctx.s.model()
+        # the branch taken on this path is not satisfied by the real value for these bytes: try other bytes
+        r = ctx.check(z3.Or([z3.Not(f) for f in facts[::2]]))
+        if r != z3.sat:
+            return None
+        model = ctx.s.model()
+    return None
+
+
+
+
+def undecodable(ctx, model):
+    for codec, items in ctx.notes.get("decode_calls", []):
+        try:
+            bv.model_bytes(model, items).decode(codec)
+        except (UnicodeDecodeError, LookupError):
+            return True
+    return False
 
 
 class Harness:
@@ -41,16 +92,52 @@ class Harness:
                 for v in x:
                     walk(v)
         walk(getattr(res, "inputs", {}))
-        return out
+        # moderate magnitudes for every float that reaches struct.unpack (double overflow / underflow is outside the claim)
+        ctx = Ctx.cur
+        pre = []
+        if ctx is not None:
+            for fmt, word in ctx.notes.get("unpack_calls", []):
+                n = word.size()
+                ieee = word
+                if fmt.startswith("<"):
+                    parts = [z3.Extract(8 * i + 7, 8 * i, word) for i in range(n // 8)]
+                    ieee = z3.Concat(*parts) if len(parts) > 1 else parts[0]
+                hi, lo, a, b = {16: (14, 10, 12, 19), 32: (30, 23, 120, 134), 64: (62, 52, 1016, 1030)}[n]
+                e = z3.Extract(hi, lo, ieee)
+                pre.append(z3.And(z3.UGE(e, a), z3.ULE(e, b)))
+            # printable ASCII for every byte that reaches bytes.decode (the codec itself is outside the claim)
+            decoded = set()
+            for _, items in ctx.notes.get("decode_calls", []):
+                for b in items:
+                    if not isinstance(b, int):
+                        todo = [b]
+                        while todo:
+                            x = todo.pop()
+                            if z3.is_const(x) and x.decl().kind() == z3.Z3_OP_UNINTERPRETED:
+                                decoded.add(x.get_id())
+                            else:
+                                todo.extend(x.children())
+                        pre.append(z3.And(z3.ULT(b, 0x7F), z3.UGE(b, 0x20)))
+            out = [c for c in out if c.arg(0).get_id() not in decoded]
+        return pre + out
 
     def concretize(self, model, res):
+        skip = False
+        ctx = Ctx.cur
+        if ctx is not None and (ctx.notes.get("unpack_calls") or ctx.notes.get("decode_calls")):
+            m = refine_model(ctx, model)
+            if m is None:
+                skip = True           # explored but not validated (DESIGN.md section 3, uninterpreted results)
+            else:
+                model = m
+                skip = undecodable(ctx, model)
         req = {"kind": self.kind, "job": self.job.get("name"), "params": self.job.get("params", {}),
                "input": obs.ev(model, getattr(res, "inputs", {})),
                "expect": obs.ev(model, res.observe)}
         spec = getattr(res, "spec", None)
         if spec is not None:
             req["spec"] = obs.ev(model, spec)
-        if getattr(res, "skip_validation", False):
+        if getattr(res, "skip_validation", False) or skip:
             req["skip_validation"] = True
         return req
 
